@@ -13,13 +13,14 @@ FAM = {"C15": "P15", "C16": "P16"}
 ASSUMPTIONS = [
     "pools are real *grpc.ClientConn values dialled through the API's DialFunc over in-process bufconn servers; an outage is a stopped server, recovery a restarted one",
     "events are recorded after settling: every open pool connection is READY iff its endpoint is up and routes are stable for 15 ms (bound 3 s, C15's 'bounded time')",
-    "MultiEndpoints inside GCPMultiEndpoint run without recovery timeout / switching delay here (timers are C13/C14's subject)",
+    "histories without clock inputs run the MultiEndpoints without recovery timeout / switching delay (their Current() is then predicted exactly); histories with clock inputs run them with (recovery, delay) in {(0,3),(2,3),(2,0)} virtual ms on a virtual clock injected into package multiendpoint: there Current() is adopted from the recording and only what holds whatever the timers do is checked (C15_a, C15_r, C15_t, C16_*); the timer rules themselves are C13/C14's subject",
     "RPCs are sequential in this pipeline (concurrent RPC vs UpdateMultiEndpoints is C10's subject)",
 ]
 
 
-def write_cfg(path, depth, mode, prop, optsets):
+def write_cfg(path, depth, mode, prop, optsets, ticks=()):
     lines = ["CONSTANTS", " MaxDepth = %d" % depth, ' Endpoints = {"a", "b", "c"}', " OptSets = {%s}" % ", ".join(map(str, optsets)), " MaxRpc = 2",
+             " Ticks = {%s}" % ", ".join(map(str, ticks)),
              "INIT Init", "NEXT Next", "CHECK_DEADLOCK FALSE"]
     if mode == "bfs":
         lines += ["VIEW View", "INVARIANTS TypeOK GhostAgrees EmitBfs"]
@@ -40,7 +41,7 @@ def run(pid, tier, seed):
     try:
         binp = pool.build_pool_harness(scratch)
         depth = 4 if tier == "quick" else 6
-        optsets = [1, 2, 3, 5, 6, 7, 8] if tier == "quick" else [1, 2, 3, 4, 5, 6, 7, 8, 9]
+        optsets = [1, 2, 3, 4, 5, 6, 7, 8] if tier == "quick" else [1, 2, 3, 4, 5, 6, 7, 8, 9]
         problems, stats = [], []
         cfgp = scratch.path("GCPME_bfs.cfg")
         write_cfg(cfgp, depth, "bfs", FAM[pid], optsets)
@@ -58,7 +59,7 @@ def run(pid, tier, seed):
             hists = hists[:lim]
         simn, simd = (3, 10) if tier == "quick" else (40, 16)
         cfgs = scratch.path("GCPME_sim.cfg")
-        write_cfg(cfgs, simd, "sim", FAM[pid], [1, 2, 3, 4, 5, 6, 7, 8, 9])
+        write_cfg(cfgs, simd, "sim", FAM[pid], [1, 2, 3, 4, 5, 6, 7, 8, 9], ticks=(1, 6))
         r2 = vlib.tlc(scratch, "GCPME", cfgs, workers=16, timeout=900, simulate="num=%d" % simn, depth=simd + 1, seed=seed, tag="gcpme-sim")
         mm = re.findall(r"The number of states generated: (\d+)", r2["out"])
         transitions += int(mm[-1]) if mm else 0
@@ -69,12 +70,38 @@ def run(pid, tier, seed):
         os.remove(r2["outfile"])
         scripts = []
         reps = 4 if tier == "quick" else 16
+        TIMED = [(0, 3), (2, 3), (2, 0)]   # (recovery timeout, switching delay) in virtual ms; histories with clock inputs run on the virtual clock
+        # Tick is enabled in every live state of GCPME.tla and changes nothing there, so the exhaustive run (VIEW = mechanism state)
+        # never extends a history through it: the timed variants of the exhaustive histories are derived here by inserting
+        # clock inputs (every result is still a behaviour of the model); simulation produces ticks by itself
+        derived = []
         for i, h in enumerate(hists):
-            scripts.append({"id": "g-%d" % i, "steps": h})
+            if any(s.get("op") == "tick" for s in h) or not any(s.get("op") in ("down", "up", "update") for s in h):
+                continue
+            if i % (4 if tier == "quick" else 1):
+                continue
+            v = []
+            if (i // 4) % 2 == 0:
+                for s in h:
+                    if s.get("op") in ("rpc", "close"):
+                        v.append({"op": "tick", "n": 6})
+                    v.append(s)
+                v.append({"op": "tick", "n": 6})
+            else:
+                for s in h:
+                    v.append(s)
+                    if s.get("op") in ("down", "up", "update"):
+                        v.append({"op": "tick", "n": 1})
+                v += [{"op": "tick", "n": 6}, {"op": "rpc", "name": ""}]
+            derived.append(v)
+        hists = hists + derived
+        for i, h in enumerate(hists):
+            r_, d_ = TIMED[i % 3] if any(s.get("op") == "tick" for s in h) else (0, 0)
+            scripts.append({"id": "g-%d" % i, "r": r_, "d": d_, "steps": h})
             # rejected reconfigurations depend on Go map order: repeat those histories
             if any(s.get("op") == "update" for s in h) and i % (3 if tier == "quick" else 1) == 0:
                 for k in range(reps - 1):
-                    scripts.append({"id": "g-%d-r%d" % (i, k), "steps": h})
+                    scripts.append({"id": "g-%d-r%d" % (i, k), "r": r_, "d": d_, "steps": h})
         for k, p in enumerate(problems):
             if p.get("hist"):
                 for j in range(reps):
